@@ -1,3 +1,78 @@
-From YV Require Import PyBase Token.
-Example c04_smoke : skip_space [] = [].
-Proof. reflexivity. Qed.
+(* C04 -- generated text maps into the source span of the construct that
+   generated it.  Only statements here, closed by `exact`.  Model:
+   coq/model/{Parser,Expand,Math,Utils}.v.
+
+   Proved, per generating step: tokens made by the handlers for citations,
+   theorem titles and headings, by the expansion of a user macro body, by an
+   inline formula, by a displayed equation in simple mode and by an error
+   mark are pinned at the position of the construct's first token or at the
+   position of one of its argument tokens.  Not proved: the same for the
+   remaining handlers and environments, and that the buffer positions
+   handed to these steps are those of the construct; decided on the C04
+   stream by the span oracle of harness/props/c04.py (every generated
+   character inside the span of its construct) and the correspondence run. *)
+From Coq Require Import String.
+From YV Require Import PyBase Token Utils PState Parser Expand Math ExpandSites
+                       LatexErrorProofs ShellMap.
+Open Scope Z_scope.
+
+Theorem C04_citation : forall T rd rec fuel st buf name args p st' o,
+  run_handler T rd rec fuel HCite st buf name args p = Ok (st', o) ->
+  Forall (in_construct args p) o /\ st' = st.
+Proof. exact cite_in_construct. Qed.
+Print Assumptions C04_citation.
+
+Theorem C04_theorem_title : forall T rd rec fuel title st buf name args p st' o,
+  run_handler T rd rec fuel (HTheorem title) st buf name args p = Ok (st', o) ->
+  Forall (in_construct args p) o /\ st' = st.
+Proof. exact theorem_title_in_construct. Qed.
+Print Assumptions C04_theorem_title.
+
+Theorem C04_heading_full_stop : forall T rd rec fuel st buf name args p st' o,
+  run_handler T rd rec fuel HHeading st buf name args p = Ok (st', o) ->
+  Forall (in_construct args p) o /\
+  exists a2, arg args 2 = Ok a2 /\
+             (o = a2 \/ exists lp, last_pos a2 = Ok lp /\ o = a2 ++ [TextT lp (s2l ".")]).
+Proof. exact heading_in_construct. Qed.
+Print Assumptions C04_heading_full_stop.
+
+Theorem C04_macro_body : forall args body cur r,
+  gen_repl args body cur = Ok r ->
+  Forall (fun t => (exists a, In a args /\ In t a) \/
+                   (is_action t = true /\ arg_ends args (pos t)) \/
+                   (pfix t = true /\ (pos t = cur \/ arg_ends args (pos t)))) r.
+Proof. exact gen_repl_positions. Qed.
+Print Assumptions C04_macro_body.
+
+Theorem C04_inline_formula : forall T st ts fp nr out p ph rest0,
+  first_pos ts = Ok p ->
+  forallb (is_mspace) ts = false ->
+  rotate (get_repls st false) = ph :: rest0 ->
+  exists sp1 pc sp2 nr',
+    replace_section T st true false [MPart ts] fp nr out =
+      Ok (set_repls st false (ph :: rest0),
+          out ++ sp1 ++ [TextF p ph] ++ pc ++ sp2, nr') /\
+    sp1 = (match ts with
+           | t0 :: _ => if is_mspace t0 then [SpaceF p s_space] else []
+           | [] => [] end) /\
+    (pc = [] \/ exists c, pc = [TextF p [c]] /\ last_char T ts = [c]
+                          /\ mem_str [c] (t_math_punctuation T) = true) /\
+    sp2 = (match rev ts with
+           | t1 :: _ => if is_mspace t1 then [SpaceF p s_space] else []
+           | [] => [] end) /\
+    get_repls (set_repls st false (ph :: rest0)) false = ph :: rest0.
+Proof. exact replace_section_inline. Qed.
+Print Assumptions C04_inline_formula.
+
+Theorem C04_error_mark : forall mark verbose err p latex,
+  0 <= p <= zlen latex ->
+  let d := fst (latex_error mark verbose err p latex) in
+  let ts := snd (latex_error mark verbose err p latex) in
+  (d_line d, d_col d) = text_loc latex p /\ d_msg d = err /\
+  flat_map txt ts = error_mark mark verbose err /\
+  Forall (fun t => pfix t = true /\ tk t = KText) ts /\
+  (p < zlen latex ->
+   exists t r, ts = t :: r /\ pos t = p /\ txt t <> [] /\
+               Forall (fun t => p <= pos t < zlen latex) r).
+Proof. exact latex_error_spec. Qed.
+Print Assumptions C04_error_mark.
